@@ -11,7 +11,7 @@
      quest_small q the question fits the wire format (name <= 255 octets)
      cfg_wf c      the ECS / NSID oracle options have the codes 8 / 3
      hdr_agrees    the library decoded ID and opcode from the packet header            *)
-From Sdns Require Import Common.Base Common.GoList Gen.C06 C06.Model C06.WireOpt C06.Run C06.Proofs C06.Proofs_wire C06.Proofs_hit C06.Proofs_word C06.Proofs_filters.
+From Sdns Require Import Common.Base Common.GoList Gen.C06 C06.Model C06.WireOpt C06.Run C06.Proofs C06.Proofs_wire C06.Proofs_hit C06.Proofs_word C06.Proofs_filters C06.Proofs_strip.
 Open Scope N_scope.
 
 (* datagram / stream listeners: QR set, the packet's ID and opcode echoed, on every reply *)
@@ -519,3 +519,23 @@ Theorem edns_filters_are_the_translated_code :
     /\ (forall l, map absx (go_keepOPTOnly l) = keep_opt_only (map absx l)).
 Proof. exact edns_filters_are_the_translated_code_l. Qed.
 Print Assumptions edns_filters_are_the_translated_code.
+
+(* ---- wave 9: the DNSSEC / OPT stripping IS the translated Go code ----
+   dnsutil.ClearDNSSEC (the one function behind "no RRSIG, NSEC or NSEC3 in answer or authority unless DO was
+   set or type RRSIG was asked": edns.ResponseWriter.WriteMsg, the cache's stripped bodies and cut
+   responses all call it) and dnsutil.ClearOPT ("no OPT unless the query carried one"), translated from the
+   Go AST with their helpers filterOut / isDNSSEC / isOPT, ARE Model.clear_dnssec and Model.clear_opt — for
+   every library message, under ANY abstraction of library messages to the model's that keeps the question
+   type and respects Go type <-> record type (RRSIG / NSEC / NSEC3 <-> 46 / 47 / 50, OPT records).  The
+   RRSIG-question exemption is part of the statement: a widened exemption (seeded C06-14) or a filter that
+   misses a record breaks this proof.  filterOut is the plain filter for EVERY callback. *)
+Theorem dnssec_strip_is_the_translated_code :
+  forall (absh : T_MsgHdr -> hdr) (absq : T_Question -> quest) (absr : I_RR -> rr) (absx : I_RR -> xrr),
+    (forall q, q_type (absq q) = T_Question_Qtype q) ->
+    (forall x, is_dnssec (absr x) = go_isDNSSEC x) ->
+    (forall x, is_opt (absx x) = go_isOPT x) ->
+    (forall m, abs_msg absh absq absr absx (go_ClearDNSSEC m) = clear_dnssec (abs_msg absh absq absr absx m))
+    /\ (forall m, abs_msg absh absq absr absx (go_ClearOPT m) = clear_opt (abs_msg absh absq absr absx m))
+    /\ (forall rrs drop, go_filterOut rrs drop = filter (fun x => negb (drop x)) rrs).
+Proof. exact dnssec_strip_is_the_translated_code_l. Qed.
+Print Assumptions dnssec_strip_is_the_translated_code.
